@@ -52,6 +52,8 @@ def op? : Sexp → Option Op
   | .list [.atom "unlock"] => some .unlock
   | .list [.atom "names", n] => do pure (.setNames (← optNames? n))
   | .list [.atom "rename", a, b] => do pure (.rename (← path? a) (← path? b))
+  | .list [.atom "reduce"] => some .reduce
+  | .list (.atom "reduce" :: _) => some .reduce
   | .list [.atom "swap", a, b] => do pure (.swap (← path? a) (← path? b))
   | .list (.atom "assign" :: a :: b :: _) => do pure (.assign (← path? a) (← path? b))
   | _ => none
